@@ -221,7 +221,7 @@ def handle : List String → String
     else
     match pcol, pb lk lt lv, pb uk ut uv, intList vals with
     | some col, some lo, some hi, some vs =>
-      String.ofList (vs.map (fun v => if JsonRange.implMatch col lo hi v then '1' else '0')) ++ "|" ++
+      String.ofList (vs.map (fun v => if JsonRange.implMatchG JsonRange.Guards.extracted col lo hi v then '1' else '0')) ++ "|" ++
       String.ofList (vs.map (fun v => if JsonRange.specMatch lo hi v then '1' else '0')) ++ "|" ++
       (if JsonRange.colOf (sup == "u") vs == col then "1" else "0")
     | _, _, _, _ => "bad-op"
